@@ -227,6 +227,9 @@ type FuncContract struct {
 	ResNames  []string        // names for results (from header)
 	Opts      map[string]string
 	Uses      []string // lemmas assumed at function entry
+	GoFrames    bool // generate goroutine frame obligations for every go statement of the function
+	ClosedWorld bool // every caller in the repository must itself be under a verified contract
+	Literals  [][2]string // structural obligations on composite literals: type, canonical text
 	FieldOf   string   // funcfield contracts: struct type name
 	FieldName string   //                      field name
 	SrcFile   string
